@@ -154,18 +154,25 @@ def disagreements(rungs, sequenced):
     def comparable(b):
         return b is not None and b[1] != "outOfFuel"
 
+    def type_error(b):
+        # stuck for a reason other than an arithmetic fault: the program at that stage is ill-typed / ill-scoped,
+        # so it has no behaviour that LATER stages have to preserve (the step that produced it is to blame)
+        return b[1].startswith("stuck") and b[1] not in ("stuck:divByZero", "stuck:overflow")
+
     prev = None
     for l, b in sem:
         if l == "S1:fun" and not sequenced:
             continue
         if not comparable(b):
             continue
+        if prev is not None and type_error(prev[1]):
+            break
         if prev is not None and prev[1] != b:
             owner = STEP_OWNER.get((prev[0], l), "C12")
             out.append((owner, prev[0], l, prev[1], b))
         prev = (l, b)
     pos = next(((l, b) for l, b in sem if l == "S5:pos" and comparable(b)), None)
-    if pos:
+    if pos and not type_error(pos[1]):  # a stuck AxCut program (ill-typed input) has no behaviour to preserve
         for l, b in asm:
             if b is None:
                 continue  # the machine model did not answer in time / could not parse: not a semantic verdict
